@@ -51,7 +51,7 @@ MIN_COUNTERS = {
 def plan(tier, seed):
     shards = []
     if tier == 'quick':
-        groups, per = 2, 90
+        groups, per = 2, 300
         sind = 300
     else:
         groups, per = 16, 9000
@@ -83,6 +83,8 @@ def gen_program(seed, i):
     else:
         g = Gen(rng, rt_safe=True, features=('pr', 'send', 'rand'))
         g.single_clock = rng.choice([-1, 0])
+        if g.single_clock == 0 and rng.random() < 0.5:
+            g.features.add('tempo')     # tempo changes while moved tasks are pending
     # exact arithmetic: dyadic deltas, power-of-two tempos and (in RT) a dyadic
     # start time, so that equal logical times are bit-equal in both modes and
     # ties are ordered by insertion in both (see vf/prog.py DYADIC_DELTAS)
@@ -117,7 +119,23 @@ def gen_program(seed, i):
         mk = lambda i, extra: {'id': i, 'clock': ck, 'free': True,
                                'seed': rng.randrange(1 << 30),
                                'body': [['y', a]] + extra + [['y', b], ['send', 0, i * 1000 + 1]]}
-        prog['routines'].append(mk(nid, [['pause', nid + 1], ['resume', nid + 1]]))
+        ctrl = [['pause', nid + 1], ['resume', nid + 1]]
+        if ck == 0:
+            # tempo clocks quantise a resume to the next whole beat unless told
+            # otherwise: quant 0 = at the current beat (the tie with nid + 2);
+            # or both are moved, in the opposite order, to wherever the quant says
+            v = rng.randrange(3)
+            if v == 0:
+                ctrl = [['pause', nid + 1], ['resume', nid + 1, 0]]
+            elif v == 1:
+                q = rng.choice([0, 1])
+                ctrl = [['pause', nid + 1], ['pause', nid + 2],
+                        ['resume', nid + 2, q], ['resume', nid + 1, q]]
+        if ck == 0 and rng.random() < 0.6:
+            # ... and then the tempo changes: real-time queues are keyed in beats
+            # and keep their order, the non-real-time scheduler re-keys them
+            ctrl.append(['tempo', 0, rng.choice([1, 2, 4, 8])])
+        prog['routines'].append(mk(nid, ctrl))
         prog['routines'].append(mk(nid + 1, [['send', 0.2, (nid + 1) * 1000]]))
         prog['routines'].append(mk(nid + 2, [['send', 0.2, (nid + 2) * 1000]]))
         if rng.random() < 0.5:
@@ -476,8 +494,11 @@ def finalize(results, tier, seed):
                       'nrt_errors': a.get('errors')})
                 continue
             # single-clock programs run on one thread: execution order is determined
-            if fam != 'multi-clock' and prog['routines'] and all(
-                    R['clock'] == -1 for R in prog['routines']) \
+            if fam != 'multi-clock' and prog['routines'] and \
+                    len({R['clock'] for R in prog['routines']}) == 1:
+                cnt('global_order_compared_rt_nrt')
+            if fam != 'multi-clock' and prog['routines'] and \
+                    len({R['clock'] for R in prog['routines']}) == 1 \
                     and a['glog'] != r.get('glog'):
                 g2 = r.get('glog') or []
                 k = next((j for j, (x, y) in enumerate(zip(a['glog'], g2)) if x != y),
